@@ -8,6 +8,11 @@ CLAIMS = {
  "C01": ("Document store + position mapping modelled in Gallina; reference LSP client buffer as specification. The full statement is refuted (2 machine-checked witnesses, both recorded as known findings); C01_partial proves it for ALL histories outside the two refuted classes; every run compares model, reference client and implementation on generated histories decoded from wire JSON, and the answers of 8 handlers with a fresh server on the final text.",
          "Trusted: Coq kernel+VM; Go UTF-8 decoding is modelled (Lib/Utf8.v); the transcription is checked by correspondence only; background analyses are awaited after each notification.",
          "Coq proof (refutation + partial theorem by induction on histories) + differential correspondence", "5 C01"),
+ "C10": ("Include loader modelled at include-graph level (visited set, cache, both limits); the exact-cycle clause is refuted by three machine-checked witnesses (diamond, double include, count-based depth limit: recorded known findings); root-level verdicts proved for all file systems. Every run compares model, a stack-based reference traversal and the real loader on all 512 digraphs on 3 files plus random directories using every include form (relative, ./, absolute, ~/, dot-dot, glob).",
+         "Trusted: Coq kernel+VM; graph-level abstraction (path and glob resolution run in the real code, results given to the model); termination/soundness of the traversal for all graphs is checked by the tie and oracle, not yet proved (ceiling).",
+         "Coq refutation theorems + reference-traversal oracle + exhaustive small-graph correspondence", "5 C10"),
+ "C11": ("Loader as a state machine over load / write+invalidate / clear; full statement refuted by a machine-checked witness (cache hit returns a journal without its nested includes: known finding); partial theorems: ClearCache then load = fresh load, and an invalidated file is never served from cache, in every state. Every run compares the shared loader with a fresh loader after each load of random operation sequences.",
+         "Trusted: as C10.", "Coq refutation + partial theorems + shared-vs-fresh differential correspondence", "5 C11"),
  "C13": ("Publish machine at publish-point granularity; C13_statement proved for all traces, all completion orders and all diagnostics functions on the guarded machine (the code after the fix commit); the unguarded machine is refuted. The tie enumerates every release permutation of bursts of 2..4 changes on two documents and random interleaved traces through a publish-point hook.",
          "Trusted: Coq kernel+VM; the hook; serialisation by publishMu read from the code; Go scheduler/memory model not modelled (orders finer than the publish point).",
          "Coq invariant proof over all traces + exhaustive small-burst schedule enumeration against the implementation", "5 C13"),
